@@ -96,6 +96,23 @@ def run(ctx):
             # a site inside a private helper (extract-method) is the callers' site: read it in each caller's inlined view, where
             # the caller's guards dominate it and the ledger row reviewed for the caller names it
             hv = _host_sites(F, reach, fn, s) if is_private_helper(F.fns.get(fn.j.get("root")) or fn) else []
+            if not hv and fn.kind == "closure" and is_private_helper(F.fns.get(fn.j.get("root")) or fn):
+                # a closure written inside a private helper is not copied into the callers' views; it is the callers' closure all
+                # the same: the ledger row reviewed for `<caller>::{closure}` names it
+                rootf = F.fns.get(fn.j.get("root"))
+                done = False
+                for hn in sorted(F.hosts_of(fn)):
+                    k2 = key.replace(rootf.name, hn, 1)
+                    if k2 in ledger and used.get(k2, 0) < ledger[k2]["max"]:
+                        used[k2] = used.get(k2, 0) + 1
+                        used[key] -= 1
+                        n_led += 1
+                        R.ok(1, sample={"rule": "PANIC (closure of a private helper, keyed by the caller)", "helper": fn.name[-50:], "key": k2[:100]})
+                        site_index.setdefault(fid, []).append((s, "ledger"))
+                        done = True
+                        break
+                if done:
+                    continue
             if hv:
                 res = []
                 for (v, s2) in hv:
